@@ -125,11 +125,34 @@ func (n *nestWorld) act(w *ecs.World, e ecs.EntityEvent) {
 		n.cov.N["nested_ops_depth2"]++
 	}
 	same := w.Ids(e.Entity)
-	kind := n.r.Intn(6)
+	kind := n.r.Intn(7)
 	if n.topBatch && kind >= 3 {
 		kind = n.r.Intn(3) // inside a batch's event loop only creations
 	}
 	switch kind {
+	case 6: // another, already announced entity is removed (its removal event is delivered inside this callback)
+		cands := []ecs.Entity{}
+		for _, o := range n.known() {
+			busy := false
+			for _, x := range n.inflight {
+				if x == o {
+					busy = true
+				}
+			}
+			if !busy && w.Alive(o) {
+				cands = append(cands, o)
+			}
+		}
+		if len(cands) == 0 {
+			return
+		}
+		o := Pick(n.r, cands)
+		n.log = append(n.log, fmt.Sprintf("  nested RemoveEntity(%v)", o))
+		w.RemoveEntity(o)
+		if w.IsLocked() {
+			n.fail("lock.leak", "world locked after a removal made from inside a callback")
+		}
+		n.cov.N["nested_removals"]++
 	case 5: // a new target for another, already announced entity (whichever relation component it has)
 		cands := []ecs.Entity{}
 		for _, o := range n.known() {
@@ -259,7 +282,17 @@ type nestMember struct {
 
 // checkRelation compares the relation component an event names as the new one with the one the entity has.
 func (n *nestWorld) checkRelation(w *ecs.World, e ecs.EntityEvent) (ecs.ID, bool) {
-	if e.Contains(event.EntityRemoved) || !w.Alive(e.Entity) {
+	if e.Contains(event.EntityRemoved) {
+		// removal events come before the removal, with the world locked - also when the removal was made from
+		// inside another callback
+		if !w.IsLocked() {
+			n.fail("event.unlocked", "the removal event for %v (nesting depth %d) was delivered with the world unlocked", e.Entity, n.depth)
+		} else if !w.Alive(e.Entity) {
+			n.fail("event.late", "the removal event for %v (nesting depth %d) was delivered after the removal", e.Entity, n.depth)
+		}
+		return ecs.ID{}, false
+	}
+	if !w.Alive(e.Entity) {
 		return ecs.ID{}, false
 	}
 	var truth ecs.ID
